@@ -35,6 +35,13 @@ def _storage(kind, rows):
 def _phi(v, zero):
     """relabelling of the specification's values: with zero set, the value of feature 1 in stored row 1 is the number 0
     (a background value is a value even when it is falsy) and the instance's last feature is 0.0 with another sign bit"""
+    if zero == 2:
+        # mixed numeric types: the instance holds ints, every background / default value is a float with a fractional
+        # part (and the other way round for feature 2): a background value is used as it is, never coerced to the type
+        # the instance has
+        if v >= 100:
+            return float(v) + 0.5 if v % 10 != 2 else int(v)
+        return int(v) if v != 20 else 20.25
     if zero and v == 101:
         return 0
     return v
@@ -66,7 +73,7 @@ def replay(rec, container, storage_kind, names_kind="str", zero=False, keywords=
             for nm in list(subset):
                 script.append(("uniform", nrows, dr[names.index(nm) + 1] - 1))
     if strategy == "default":
-        imp = DefaultImputer(model, {nm: 1000 + (i + 1) for i, nm in enumerate(names)})
+        imp = DefaultImputer(model, {nm: _phi(1000 + (i + 1), zero) for i, nm in enumerate(names)})
     else:
         imp = MarginalImputer(model, strategy, storage)
     x_before, subset_before = copy.deepcopy(x), copy.deepcopy(list(subset))
